@@ -107,6 +107,8 @@ def enumerate_cases(tier: str):
                 yield {"version": version, "msg": msg, "ending": "\n", "warmup": [], "warm_mut": [["cut", cut]]}
                 yield {"version": version, "msg": msg, "ending": "\n", "warmup": [], "warm_mut": [["cutraw", cut]]}
             # payloads holding lone surrogates (what json.loads or surrogateescape decoding hand to an application): plain str data for the codec
+            for text in gen.DELIM_PAYLOADS + gen.PLAIN_PAYLOADS:
+                yield {"version": version, "msg": msg[:5] + [text.rstrip()], "ending": "\n", "warmup": []}
             for text in ("\ud800", "temp \ud83c", "a\udfffb", "\udc80;\udcff", "x" * 30 + "\ud800"):
                 yield {"version": version, "msg": msg[:5] + [text], "ending": "\n", "warmup": []}
             for ctx in env.CTX_MODES:
@@ -218,6 +220,19 @@ def _run_case(case: dict) -> Outcome:
         want_edit = ref_format(node, child, command, 1 - ack, mtype, payload + ";edited")
         if redumped != want_edit:
             return fail(f"dump-of-edited-decoded-message:{how}", f"load({dumped!r}), then ack={1 - ack} and payload+=';edited', dumps as {redumped!r}, expected {want_edit!r}", classes=classes)
+
+    # the same schema encodes other messages with the same header (kept alive side by side), and the same object again after an edit
+    sibling = Message(node, child, command, ack, mtype, payload + ";sibling")
+    try:
+        sibling_line = schema.dump(sibling)
+        own_again = schema.dump(Message(node, child, command, ack, mtype, payload))
+        sibling.payload = payload + ";changed"
+        sibling_changed = schema.dump(sibling)
+    except Exception as err:  # noqa: BLE001
+        return fail(f"dump-raises:{type(err).__name__}", f"dumping messages with the same header raised {err!r}", classes=classes)
+    for got_line, want_payload in ((sibling_line, payload + ";sibling"), (own_again, payload), (sibling_changed, payload + ";changed")):
+        if got_line != ref_format(node, child, command, ack, mtype, want_payload):
+            return fail("dump-reuses-another-messages-line", f"one schema, messages with header {msg[:5]} and different payloads: a message with payload {want_payload!r} was encoded as {got_line!r}", classes=classes)
 
     # (B) decode(line) re-encodes to the line up to trailing whitespace
     line = expected_line[:-1] + ending
